@@ -7,6 +7,7 @@ recorded runs: after every completed run all 2^4 flag combinations x trimming pa
 """
 import os, sys
 sys.path.insert(0, os.path.dirname(os.path.dirname(os.path.abspath(__file__))))
+sys.path.insert(0, os.path.dirname(os.path.abspath(__file__)))
 from vlib import core, sysrun, drivers  # noqa: E402
 
 FACTORS = {
@@ -27,9 +28,67 @@ def nontrivial(t):
     return (t["meta"]["label"], t["meta"]["seed"]) if (done and n >= 16) else None
 
 
+def _probe_job(job):
+    """Synthetic history for the termination test: a completed run whose current temperature is set back to just
+    below 1 (0.99 .. 0.99985), saved, and resumed in a fresh sampler with an n_total it already satisfies.
+    run() must not return before the temperature is within 1e-4 of 1 again."""
+    core.import_repo()
+    import shutil
+    import tempfile
+    import warnings
+
+    warnings.filterwarnings("ignore")
+    import numpy as np
+    from vlib import drivers as dr, psrun as ps
+
+    out_dir = tempfile.mkdtemp(prefix="c12probe_")
+    try:
+        conf = job["conf"]
+        rec = ps.Recorder(2, have_blobs=(conf.get("evaluation") == "blobs"), label=job["label"])
+        _, s, tr0 = dr.record_run(conf, n_total=40, seed=job["seed"], label=job["label"] + "|base", out_dir=out_dir, rec=rec)
+        traces = []
+        for b in job["betas"]:
+            s.state.set_current("beta", b)
+            path = os.path.join(out_dir, f"tampered_{b}.state")
+            with ps.hooks_on(rec):
+                s.save_state(path)
+            s2, _ = dr.build_sampler(conf, rec, out_dir=out_dir)
+            rec.attach(s2)
+            _, _, tr = dr.record_run(conf, n_total=16, seed=999, label=job["label"] + f"|resume beta={b}", resume=path, out_dir=out_dir, rec=rec, sampler=s2)
+            tr["meta"]["probe_beta"] = b
+            traces.append(tr)
+        return traces
+    finally:
+        shutil.rmtree(out_dir, ignore_errors=True)
+
+
+def termination_probe(ck):
+    from vlib import procs, psrun
+
+    jobs = [dict(conf=c, seed=120 + i + ck.seed, label=f"termprobe#{i}", betas=[0.99, 0.995, 0.9995, 0.99985, 0.99995])
+            for i, c in enumerate([dict(clustering=False), dict(clustering=True, sample="rwm"), dict(volume_variation=0.5, clustering=False)])]
+    res = procs.run(_probe_job, jobs, procs=len(jobs), timeout=600)
+    traces = []
+    for st, r in res:
+        if st != "ok":
+            raise RuntimeError("termination probe worker failed: " + str(r)[:400])
+        traces += r
+    fails, stt = psrun.validate(traces)
+    sysrun.attribute(ck, "C12", traces, fails)
+    return {"termination_probe_runs": len(traces), "termination_probe_states": stt["states"]}
+
+
 def main():
     ck = core.Check("C12", "model_checking")
+    import c12_posterior
+
+    if ck.args.replay:
+        sys.exit(c12_posterior.replay_file(ck.args.replay))
+    comp = c12_posterior.component_part(ck)   # Posterior.tla: enumerated posterior() cases replayed into the real Sampler.posterior
     cov = sysrun.model_part(ck, "C12", variants=[], tier=ck.tier)
+    cov["states"] += comp["states"]
+    cov["transitions"] += comp["transitions"]
+    cov.update({k: v for k, v in comp.items() if k.startswith("posterior_")})
     limit = 40 if ck.tier == "quick" else None
     jobs = sysrun.product_jobs(FACTORS, {"n_particles": 8}, ck.seed + 12, limit=limit, flags=FLAGS)
     for j in jobs:
@@ -42,10 +101,11 @@ def main():
     sc, traces = sysrun.system_part(ck, "C12", jobs, nontrivial)
     cov.update(sc)
     cov.update(sysrun.selftest(traces[0]))
+    cov.update(termination_probe(ck))
     cov.update({
-        "traces_validated_against_impl": sc["system_runs"],
-        "evaluations": sc["system_events_validated"],
-        "distinct_nontrivial": sc["system_nontrivial"],
+        "traces_validated_against_impl": sc["system_runs"] + comp["replays"],
+        "evaluations": sc["system_events_validated"] + comp["replays"],
+        "distinct_nontrivial": sc["system_nontrivial"] + comp["distinct_nontrivial"],
         "posterior_calls_validated": sc["system_event_counts"].get("Posterior", 0),
         "rule": "a run is non-trivial when it terminated and all 16 posterior() flag combinations (x 3 trimming parameter pairs) were observed; every Terminate and Posterior event is validated by TLC against the PSRun clauses",
         "exhaustive": False,
